@@ -93,7 +93,7 @@ def refill(R, prog):
     cachew = lambda ev: ev.kind == 'call' and ((ev.callee() or '').endswith('::do_pwritev2') or ((ev.callee() or '').endswith('::unpin_wbuf') and ev.f.const(ev.e['args'][1]) == 0))
     copyout = lambda ev: ev.kind == 'call' and (ev.callee() or '').endswith('::memcpy_to') and 'refill_buf' in (ev.recv_path() or '')
     seen = an.SeenTracker([('locked', locked), ('read', srcread), ('unlocked', unlock), ('async', asyncw)])
-    res = an.run(G, [seen, an.GuardTracker(lambda k: ((re.search(r'(^|[^\w.>])ret($|[^\w])', k) is not None or 'preadv2(buffer' in k or 'try_lock_wait' in k) or k.startswith('refilling <')) and 'tr.' not in k)])
+    res = an.run(G, [seen, an.GuardTracker(lambda k: ((re.search(r'(^|[^\w.>])ret($|[^\w])', k) is not None or 'preadv2(buffer' in k or 'try_lock_wait' in k) or k.startswith('refilling <')) and 'tr.' not in k, def_names={'ret'})])
 
     def full_read(st):
         return any(re.match(r'^G:\[.*src_file_->preadv2\(buffer.*\] == %s=T$' % re.escape(rsize), k) or
